@@ -83,7 +83,8 @@ def oracle_ctl(ctx, ops, impl):
             clients = []
             for tok in t[3:]:
                 f = tok.split(":")
-                clients.append({"id": int(f[0]), "n": int(f[1]), "sp": int(f[2]), "qt": int(f[3]), "scope": int(f[4])})
+                clients.append({"id": int(f[0]), "n": int(f[1]), "sp": int(f[2]), "qt": int(f[3]), "scope": int(f[4]),
+                                "cls": int(f[6]) if len(f) > 6 else 1})
             continue
         if t[:2] == ["C", "respell"]:
             pending_respell = int(t[5])
@@ -111,8 +112,9 @@ def oracle_ctl(ctx, ops, impl):
             if rid != c["id"]:
                 ctx.report(f"reply to client {t[2]} carries id {rid}, the client asked with id {c['id']}",
                            {"op": op, "impl": im, "clients": clients, "history": list(hist)})
-            elif q == "-" or len(qq) != 3 or int(qq[0]) != c["n"] or int(qq[2]) != c["qt"]:
-                ctx.report(f"reply to client {t[2]} carries question {q}, the client asked {c['n']}.{c['sp']}.{c['qt']}",
+            elif q == "-" or len(qq) not in (3, 4) or int(qq[0]) != c["n"] or int(qq[2]) != c["qt"] \
+                    or (int(qq[3]) if len(qq) == 4 else 1) != c["cls"]:
+                ctx.report(f"reply to client {t[2]} carries question {q}, the client asked {c['n']}.{c['sp']}.{c['qt']} class {c['cls']}",
                            {"op": op, "impl": im, "clients": clients, "history": list(hist)})
         if "written-" in im or "nothing-written" in im:
             ctx.report(f"client {t[2] if len(t) > 2 else '?'}: {im}", {"op": op, "impl": im})
@@ -122,7 +124,7 @@ def oracle_ctl(ctx, ops, impl):
                 k, v = e.split(">")
                 kn, kt, _ = k.split(".")
                 vq = v.split("/")[0].split(".")
-                if len(vq) != 3 or vq[0] != kn or vq[2] != kt:
+                if len(vq) != 3 or vq[0] != kn or vq[2] != kt:  # 3 parts = class IN: the cache holds class-IN answers only
                     ctx.report(f"cache entry {e}: stored under a key it is not an answer to", {"op": op, "impl": im})
     return n_replies
 
